@@ -139,6 +139,33 @@ def permuted(g, perm, rng=None):
     return g2
 
 
+def reconfigure_sequence(res, g, rng, prop, kind_on_mismatch="property"):
+    """one model object re-tuned in place between queries (model.beta = x, a unit conversion of a running system):
+    every later prediction must be what a model constructed with the new parameters returns"""
+    inp = dict(type="pred", game=g)
+    try:
+        model = build_model(g)
+        teams = build_teams(model, g)
+        model.predict_win(teams); model.predict_draw(teams); model.predict_rank(teams)
+        for k in (rng.choice([0.25, 3.0, 40.0]), 1e-3 if rng.random() < 0.3 else 2.0):
+            g2 = dict(g); g2["beta"] = g["beta"] * k
+            g2["teams"] = [[(m * k, s * k) for (m, s) in t] for t in g["teams"]]
+            model.beta = g2["beta"]; model.mu *= k; model.sigma *= k; model.tau *= k
+            for t in teams:
+                for p in t:
+                    p.mu *= k; p.sigma *= k
+            got = (model.predict_win(teams), model.predict_draw(teams), model.predict_rank(teams))
+            want = impl_pred(dict(g2, beta=model.beta, teams=[[(p.mu, p.sigma) for p in t] for t in teams]), probe=False)
+            res.count("reconfigured_in_place")
+            if got != want:
+                res.fail(kind_on_mismatch, "%s: after re-tuning the model in place (beta x %r) the predictions %r differ from a model constructed with those parameters %r" % (
+                    prop, k, got, want), inp)
+                return
+            g = g2
+    except Exception as e:  # noqa: BLE001
+        res.fail("property", "%s: a predict operation raised %s after re-tuning the model in place" % (prop, type(e).__name__), inp)
+
+
 # =============================================================================== C09
 def c09_one(res, g, rng):
     inp = dict(type="pred", game=g)
@@ -364,8 +391,28 @@ def c11_item(res, item):
     corr_pred(res, [g], "correspondence", "C11", which=("rank", "draw"))
 
 
+def c11_rank_data(res, rng):
+    """the literal (loop-shaped) Lean model of _rank_data against the real function, exactly"""
+    lines, cases = [], []
+    for _ in range(size(res, 400, 2000)):
+        n = rng.randint(0, 9)
+        pool = [rng.random() for _ in range(rng.randint(1, 4))]
+        v = [rng.choice(pool) if rng.random() < 0.6 else rng.random() for _ in range(n)]
+        lines.append("RANKDATA %d %s" % (n, " ".join(core.f2h(x) for x in v)))
+        cases.append(v)
+    outs = Driver().run(lines)
+    for v, o in zip(cases, outs):
+        want = [int(x) for x in o.split(" ")[1:] if x]
+        got = list(core.m_common._rank_data(v))
+        res.traces += 1
+        res.count("rank_data_literal_comparisons")
+        if got != want:
+            res.fail("correspondence", "C11: _rank_data(%r) = %r differs from the literal Lean model %r" % (v, got, want), dict(type="rankdata", v=v))
+
+
 def c11(res):
     rng = random.Random(res.seed)
+    c11_rank_data(res, rng)
     games = []
     for _ in range(size(res, 1500, 10000)):
         g = pred_game(rng)
@@ -396,6 +443,8 @@ def c12(res):
         res.case(g); describe(res, g)
         games.append(g)
     corr_pred(res, games, "property", "C12 closed forms")
+    for g in games[:: max(1, len(games) // 120)]:
+        reconfigure_sequence(res, g, rng, "C12")
     corr_pred(res, games[:: max(1, len(games) // size(res, 150, 60))], "property", "C12 closed forms (192-bit evaluation)", hp=True)
     res.rule = ("predict_win / predict_draw / predict_rank on the implementation against the Lean model evaluated at Float with its own "
                 "erfc-based Phi and bisection/Newton Phi^-1 (independent of CPython's NormalDist), 1e-9 absolute; the model is proved equal "
